@@ -101,10 +101,10 @@ func checkTree(c treeCase, o *kit.Obs) (err error) {
 func TestProp(t *testing.T) {
 	both := []int{2, 3}
 	kit.Run(t, "C03", rule,
-		kit.Clause[treeCase]{Name: "C03/primitives", Quick: 8000, Thorough: 250000, Gen: genGroup("primitives", both), Check: checkTree},
-		kit.Clause[treeCase]{Name: "C03/combinators", Quick: 8000, Thorough: 250000, Gen: genGroup("combinators", both), Check: checkTree},
-		kit.Clause[treeCase]{Name: "C03/transformed", Quick: 8000, Thorough: 250000, Gen: genGroup("transformed", both), Check: checkTree},
-		kit.Clause[treeCase]{Name: "C03/derived", Quick: 8000, Thorough: 250000, Gen: genGroup("derived", both), Check: checkTree},
-		kit.Clause[treeCase]{Name: "C03/toolbox", Quick: 12000, Thorough: 400000, Gen: genGroup("toolbox", both), Check: checkTree},
+		kit.Clause[treeCase]{Name: "C03/primitives", Quick: 10000, Thorough: 250000, Gen: genGroup("primitives", both), Check: checkTree},
+		kit.Clause[treeCase]{Name: "C03/combinators", Quick: 12000, Thorough: 250000, Gen: genGroup("combinators", both), Check: checkTree},
+		kit.Clause[treeCase]{Name: "C03/transformed", Quick: 12000, Thorough: 250000, Gen: genGroup("transformed", both), Check: checkTree},
+		kit.Clause[treeCase]{Name: "C03/derived", Quick: 12000, Thorough: 250000, Gen: genGroup("derived", both), Check: checkTree},
+		kit.Clause[treeCase]{Name: "C03/toolbox", Quick: 18000, Thorough: 400000, Gen: genGroup("toolbox", both), Check: checkTree},
 	)
 }
